@@ -856,10 +856,9 @@ class TrajectoryStore:
             output_store, input_stores, input_stores_pattern, input_stores_index_range
         )
 
-        # Create output directory.
-        os.mkdir(output_store)
-
-        # Collect metadata and check that the field sets match.
+        # Collect metadata and check that the field sets match. (Nothing is
+        # created or moved until all the checks have passed, so that a merge
+        # that is refused can simply be retried.)
         store_data = []
         fieldset_names: set[str] | None = None
         index_groups = []
@@ -880,6 +879,9 @@ class TrajectoryStore:
         indexable = all(g is not None for g in index_groups)
         if indexable != any(g is not None for g in index_groups):
             raise ValueError('Either all or none of the input stores must be indexable')
+
+        # Create output directory.
+        os.mkdir(output_store)
 
         # Move input stores to output directory.
         for input_store in input_stores:
